@@ -43,14 +43,30 @@ def _char_lit_to_int(m):
     return str(ord(s))
 
 
-def canon_type(t):
+def canon_type(t, keep_top_cv=False):
     """Canonical spelling of a clang type string: integral template arguments as plain
     decimals, no cv-qualifiers, no elaborated keywords, normalised spacing."""
     t = re.sub(r"'((?:\\x[0-9a-fA-F]+)|(?:\\[0-7]{1,3})|(?:\\.)|[^'\\])'", _char_lit_to_int, t)
     t = re.sub(r'\b(\d+)(?:UL|ULL|U|L|LL)\b', r'\1', t)
-    t = re.sub(r'\b(const|volatile|struct|class|typename|enum)\b', '', t)
+    t = re.sub(r'\b(struct|class|typename|enum)\b', '', t)
+    # cv-qualifiers are dropped at the top level only: inside template argument lists they select a
+    # different specialisation (IteratorT<const X> vs IteratorT<X>)
+    out, depth, i = [], 0, 0
+    for m in re.finditer(r'\b(?:const|volatile)\b|[<>]', t):
+        out.append(t[i:m.start()])
+        tok = m.group(0)
+        if tok == '<':
+            depth += 1; out.append(tok)
+        elif tok == '>':
+            depth -= 1; out.append(tok)
+        elif depth > 0 or keep_top_cv:
+            out.append(tok + ' ')
+        i = m.end()
+    out.append(t[i:])
+    t = ''.join(out)
     t = re.sub(r'\s+', ' ', t)
     t = re.sub(r'\s*([<>,*&\[\]()])\s*', r'\1', t)
+    t = re.sub(r'\bconst\s+', 'const ', t)
     return t.strip()
 
 
@@ -147,7 +163,12 @@ class AST:
             nid = n.get('id')
             k = n.get('kind')
             if nid is not None:
-                if nid not in self.ids:
+                prev = self.ids.get(nid)
+                # clang prints a declaration in full once and as a short reference elsewhere: keep the full one
+                decl_ctx = p is not None and p.get('kind') in ('ClassTemplateDecl', 'FunctionTemplateDecl', 'ClassTemplatePartialSpecializationDecl', 'TypeAliasTemplateDecl')
+                prev_p = self.parent.get(nid)
+                if prev is None or (len(n) > len(prev) and 'inner' in n and 'inner' not in prev) or \
+                        (k is not None and k.endswith('ParmDecl') and decl_ctx and (prev_p is None or prev_p.get('kind') not in ('ClassTemplateDecl', 'FunctionTemplateDecl', 'ClassTemplatePartialSpecializationDecl'))):
                     self.ids[nid] = n
                     self.parent[nid] = p
                     self.files[nid] = here[0] if here else cur_file[0]
@@ -205,7 +226,7 @@ class AST:
         if 'value' in c:
             return ('value', int(c['value']))
         if 'type' in c:
-            return ('type', canon_type(c['type'].get('desugaredQualType') or c['type']['qualType']))
+            return ('type', canon_type(c['type'].get('desugaredQualType') or c['type']['qualType'], keep_top_cv=True))
         if c.get('isPack') or c.get('isPack') is not None:
             return ('pack', [self._targ(x) for x in c.get('inner', []) or [] if x.get('kind') == 'TemplateArgument'])
         # empty pack is printed as a TemplateArgument without payload
